@@ -29,7 +29,13 @@ RULE = ("every ordered pair of documents with <= 2 nodes each (quick; <= 3 nodes
         "4 000 (quick) left documents (loaded from text) in which 2-3 Hashes inherit an anchored Hash through `<<: *b`, right-hand "
         "documents naming inherited / own / new keys of one of them in random order; judged directly: every Hash the right-hand "
         "document does not name reads as before (in memory and re-read from the written document), every key of the named Hash "
-        "it does not name reads as before in the written document, a named Scalar is taken.")
+        "it does not name reads as before in the written document, a named Scalar is taken.  Aimed merges with per-path rules: "
+        "20 000 (quick) left documents holding a Hash / Array / Array-of-Hashes under a path P of one or two plain keys, a related "
+        "right-hand document merged AT P (--mergeat), [rules] / [keys] naming nodes of the merged content by their path in the left "
+        "document (P + path in the right-hand document); the merge path and every rule path are written, independently, in "
+        "forward-slash or in dot notation (both spell the same path; kw and INI delivery); the content found at P afterwards is "
+        "judged as the merge of the content at P before with the right-hand document under the same policies against the model, "
+        "the rules addressed relative to P (the model knows neither a merge path nor a notation).")
 
 CORPUS = [
     # (l, r, cfg)
@@ -548,7 +554,233 @@ def _mergekey_job(job):
     return stats, findings, [], nontrivial, hist
 
 
+# --------------------------------------------------------------------------- merges aimed at a path, rules written in either notation
+
+AIM_KEYS = ["a", "b", "cfg", "svc", "k1", "items", "prod"]
+
+
+def path_text(addr, slash):
+    """The text of a path of plain keys and indices in forward-slash (`/a/b[0]/c`) or in dot (`a.b[0].c`) notation."""
+    if not addr:
+        return "/"
+    out = ""
+    for t, v in addr:
+        if t == "k":
+            out += ("/%s" % v) if slash else (("." if out else "") + str(v))
+        else:
+            out += "[%d]" % v
+    if slash and not out.startswith("/"):
+        out = "/" + out
+    return out
+
+
+def aimed_case(rng):
+    """A left document that holds a Hash / Array / Array-of-Hashes `ls` under a path P of one or two plain keys (next to
+    sibling content), a right-hand document `r` related to `ls` (same root kind) that is merged AT P, and per-path [rules] /
+    [keys] that name nodes of the merged content by their path in the left document (P + the node's path in r).  The merge path
+    and every rule path are written, independently, in forward-slash or in dot notation - both spell the same path."""
+    while True:
+        kind = rng.choice(["map", "map", "map", "map", "aoh", "seq"])
+        depth = rng.choice([1, 2, 2])
+        ls = mg.rand_doc(rng, depth, kind)
+        r = mg.mutate(rng, ls, depth) if rng.random() < 0.85 else mg.rand_doc(rng, depth, kind)
+        if r["k"] != ls["k"] or (r["k"] == "seq" and not r["i"]) or (r["k"] == "map" and not r["e"]):
+            continue
+        cfg = mg.rand_policy(rng, r, with_rules=True)
+        if not cfg.get("rules") and not cfg.get("keys"):
+            addrs = [(a, n) for a, n in mg.node_addrs(r) if a]
+            if not addrs:
+                continue
+            a, n = rng.choice(addrs)
+            cfg["rules"] = [[a, rng.choice(mg.valid_rule_names(n))]]
+        if mg.rules_have_dups(cfg):
+            continue
+        break
+    pre = [["k", k] for k in rng.sample(AIM_KEYS, rng.choice([1, 2, 2]))]
+    inner = ls
+    for i in range(len(pre) - 1, -1, -1):
+        es = [(pre[i][1], inner)]
+        if rng.random() < 0.6:
+            sib = rng.choice([k for k in AIM_KEYS + ["zz"] if k != pre[i][1]])
+            es.insert(rng.randint(0, 1), (sib, mg.mutate(rng, ls, 1) if rng.random() < 0.5 else mg.rand_scalar(rng)))
+        inner = mg.M(*es)
+    note = {"mergeat": rng.random() < 0.5,
+            "rules": [rng.random() < 0.5 for _ in cfg.get("rules", [])],
+            "keys": [rng.random() < 0.5 for _ in cfg.get("keys", [])]}
+    via = "ini" if (mg.needs_ini(cfg) or rng.random() < 0.15) else "kw"
+    return {"aimed": True, "l": inner, "pre": pre, "ls": ls, "r": r, "cfg": cfg, "slash": note, "via": via}
+
+
+def aimed_texts(case):
+    """(mergeat text, {rule path text: value}, {key path text: value}) as handed to the library."""
+    pre, sl = case["pre"], case["slash"]
+    rules = {path_text(pre + a, s): v for (a, v), s in zip(case["cfg"].get("rules", []), sl["rules"])}
+    keys = {path_text(pre + a, s): v for (a, v), s in zip(case["cfg"].get("keys", []), sl["keys"])}
+    return path_text(pre, sl["mergeat"]), rules, keys
+
+
+def _aimed_config(case):
+    from types import SimpleNamespace
+    from yamlpath.merger import MergerConfig
+    cfg = case["cfg"]
+    mergeat, rules, keys = aimed_texts(case)
+    ns = {"mergeat": mergeat}
+    names = {"hash": "hashes", "array": "arrays", "aoh": "aoh", "set": "sets"}
+    for n, attr in names.items():
+        if cfg.get(n):
+            ns[attr] = cfg[n]
+    kw = {}
+    if case["via"] == "ini" or mg.needs_ini(cfg):
+        lines = []
+        d = [(n, cfg["d" + n]) for n in ("hash", "array", "aoh", "set") if cfg.get("d" + n)]
+        if d:
+            lines.append("[defaults]")
+            lines += ["%s = %s" % (names[n], v) for n, v in d]
+        if rules:
+            lines.append("[rules]")
+            lines += ["%s = %s" % kv for kv in rules.items()]
+        if keys:
+            lines.append("[keys]")
+            lines += ["%s = %s" % kv for kv in keys.items()]
+        p = os.path.join(mg._tmpdir(), "aimed-%d.ini" % os.getpid())
+        with open(p, "w") as fh:
+            fh.write("\n".join(lines) + "\n")
+        ns["config"] = p
+    else:
+        if rules:
+            kw["rules"] = rules
+        if keys:
+            kw["keys"] = keys
+    return MergerConfig(core.quiet_logger(), SimpleNamespace(**ns), **kw)
+
+
+def _get_addr(d, addr):
+    for t, v in addr:
+        if t == "k":
+            if d["k"] != "map":
+                return None
+            hit = [x for kk, x in d["e"] if kk == v]
+            if not hit:
+                return None
+            d = hit[0]
+        else:
+            if d["k"] != "seq" or v >= len(d["i"]):
+                return None
+            d = d["i"][v]
+    return d
+
+
+def impl_aimed(case, limit_s=5.0):
+    """Merger(l, mergeat=P, rules...).merge_with(r) -> the outcome, `ok` being the content found at P afterwards."""
+    import signal
+    from yamlpath.merger import Merger
+    old = signal.signal(signal.SIGVTALRM, mg._alarm)
+    signal.setitimer(signal.ITIMER_VIRTUAL, limit_s)
+    try:
+        mc = _aimed_config(case)
+        m = Merger(mc.log, codec.json_to_ruamel(case["l"]), mc)
+        m.merge_with(codec.json_to_ruamel(case["r"]))
+        whole = codec.node_to_json(m.data, anchors=False)
+        sub = _get_addr(whole, case["pre"])
+        if sub is None:
+            return {"err": "target-lost", "site": "-"}
+        return {"ok": sub, "whole": whole}
+    except mg.MergeTimeout:
+        return {"err": "timeout"}
+    except codec.OutOfModel:
+        return {"oom": 1}
+    except RecursionError as e:
+        return {"err": "crash:RecursionError", "site": core.crash_site(e)}
+    except Exception as e:  # noqa
+        return mg.classify_exc(e)
+    finally:
+        signal.setitimer(signal.ITIMER_VIRTUAL, 0)
+        signal.signal(signal.SIGVTALRM, old)
+
+
+ELEMENT_RULE_SIG = "aimed:rule-at-element-of-target-array-ignored"
+
+
+def _explained_by_element_rules(c, im):
+    """Is the real result exactly the policy-defined result of the same merge WITHOUT the rules / keys whose path continues the
+    merge path with an index (`/a[0]/v` under --mergeat /a)?  (Class of the known finding C05-K1.)"""
+    if c["ls"]["k"] != "seq":
+        return False
+    cfg = c["cfg"]
+    rest = {k: v for k, v in cfg.items() if k not in ("rules", "keys")}
+    for sec in ("rules", "keys"):
+        kept = [[a, v] for a, v in cfg.get(sec, []) if not (a and a[0][0] == "i")]
+        if kept:
+            rest[sec] = kept
+    if rest == cfg:
+        return False
+    try:
+        mo = core.Driver().ask([{"op": "C05.merge", "l": c["ls"], "r": c["r"], "cfg": mg.model_cfg(rest, [c["ls"], c["r"]])}])[0]
+    except codec.OutOfModel:
+        return False
+    if "ok" in im:
+        return mo.get("ok") == im["ok"]
+    return im.get("err") in ("merge", "config") and mo.get("err") == im["err"]
+
+
+def run_aimed(cases):
+    """Worker: the content at P after the aimed merge is judged, with the ordinary `judge`, as the merge of `ls` (the content at
+    P before) with `r` under the same policies, the rules / keys being addressed relative to P - the model `C05.merge`, which
+    knows neither the merge path nor a notation."""
+    stats, findings, hist, nontrivial = {"n": 0, "oom": 0}, [], {}, 0
+    reqs, ctx = [], []
+    for c in cases:
+        try:
+            mc = mg.model_cfg(c["cfg"], [c["ls"], c["r"]])
+        except codec.OutOfModel:
+            stats["oom"] += 1
+            continue
+        reqs.append({"op": "C05.merge", "l": c["ls"], "r": c["r"], "cfg": mc})
+        ctx.append(c)
+    model = core.Driver().ask(reqs) if reqs else []
+    for c, mo in zip(ctx, model):
+        im = impl_aimed(c)
+        stats["n"] += 1
+        mergeat, rules, keys = aimed_texts(c)
+        mixed = any(("/" in t) != ("/" in mergeat) for t in list(rules) + list(keys))
+        key = "aimed:%s-target:%s" % (mg.kind(c["ls"]), "rule-and-merge-path-in-different-notations" if mixed else "same-notation")
+        hist[key] = hist.get(key, 0) + 1
+        j = judge(c["ls"], c["r"], c["cfg"], c["via"], {k: v for k, v in im.items() if k != "whole"}, mo)
+        if j is None:
+            stats["oom"] += 1
+            continue
+        if j and rule_hits_twin(c["r"], c["cfg"]):
+            keep = [x for x in j if "@" in x[1]]
+            if len(keep) != len(j):
+                stats["oom"] += 1
+            j = keep
+        if "ok" in im and im["ok"] != c["ls"] and im["ok"] != c["r"]:
+            nontrivial += 1
+        if j and _explained_by_element_rules(c, im):
+            j = [(kind_, ELEMENT_RULE_SIG, what + "  [the result is exactly what the policies define when every rule / key whose path "
+                  "continues the merge path with an element `[n]` of the targeted Array is left out: those entries were ignored]")
+                 for kind_, _sig, what in j]
+            findings.extend((kind_, sig, "merge AT %s of the left document %s, [rules] %s, [keys] %s (paths in the left document): for the content at that path, %s" % (
+                mergeat, _show(c["l"]), json.dumps(rules, sort_keys=True), json.dumps(keys, sort_keys=True), what),
+                dict(c, impl={k: v for k, v in im.items() if k != "whole"}, model=mo)) for kind_, sig, what in j if len(findings) < 40)
+            continue
+        for kind_, sig, what in j:
+            what = "merge AT %s of the left document %s, [rules] %s, [keys] %s (paths in the left document): for the content at that path, %s" % (
+                mergeat, _show(c["l"]), json.dumps(rules, sort_keys=True), json.dumps(keys, sort_keys=True), what)
+            if len(findings) < 40:
+                findings.append((kind_, "aimed:" + sig, what, dict(c, impl={k: v for k, v in im.items() if k != "whole"}, model=mo)))
+    return stats, findings, [], nontrivial, hist
+
+
+def _aimed_job(job):
+    _tag, seed, n = job
+    rng = random.Random(seed)
+    return run_aimed([aimed_case(rng) for _ in range(n)])
+
+
 def _job(job):
+    if job[0] == "AIMED":
+        return _aimed_job(job)
     if job[0] == "SERIES":
         return _series_job(job)
     if job[0] == "MERGEKEY":
@@ -656,7 +888,12 @@ def run(chk: core.Check):
                 print("replay:", sig, "::", what[:800])
                 chk.violation(sig, what, c)
             return chk
-        if c.get("series"):
+        if c.get("aimed"):
+            results = [run_aimed([c])]
+            for f in results[0][1]:
+                print("replay:", f[1], "::", f[2][:1200])
+            c = {}
+        elif c.get("series"):
             results = [run_series([(c["series"]["l"], c["series"]["rs"], c.get("cfg", {}), c.get("via", "kw"))])]
             for f in results[0][1]:
                 print("replay:", f[1], "::", f[2][:800])
@@ -691,6 +928,9 @@ def run(chk: core.Check):
         jobs += [("SERIES", chk.seed * 100019 + 3 + i, 1000) for i in range(nser // 1000)]
         nmk = int(os.environ.get("YPV_NMERGEKEY") or (4000 if tier == "quick" else 40000))
         jobs += [("MERGEKEY", chk.seed * 100043 + 9 + i, 250) for i in range(nmk // 250)]
+        naim = int(os.environ.get("YPV_NAIMED") or (20000 if tier == "quick" else 200000))
+        jobs += [("AIMED", chk.seed * 100057 + 17 + i, 1000) for i in range(naim // 1000)]
+        chk.extra_cov["aimed_merges_with_rules"] = naim
         chk.extra_cov["series_of_merges"] = nser
         chk.extra_cov["merge_key_documents"] = nmk
         chk.exhaustive = True
